@@ -1,0 +1,55 @@
+//go:build verif
+// +build verif
+
+package immunitycache
+
+// This file is compiled only with the build tag `verif` (model-based verification harness in /verif).
+// It only *exports* internal state, like the package's own test helpers; it adds no behaviour.
+
+// VerifChunkState is a copy of the state of one chunk, taken under the chunk's lock.
+type VerifChunkState struct {
+	Keys           []string // keys of the items, in list (insertion) order
+	Sizes          []int    // sizes of the items, same order
+	Flagged        []bool   // item.isImmune of the items, same order
+	ImmuneKeys     []string // the chunk's immuneKeys registry (present or future keys), unordered
+	NumBytes       int      // the chunk's byte counter
+	NumMapItems    int      // len(chunk.items)
+	MaxNumItems    uint32   // chunk configuration
+	MaxNumBytes    uint32
+	NumToEvictStep uint32
+}
+
+// VerifNumChunks returns the number of chunks.
+func (ic *ImmunityCache) VerifNumChunks() int {
+	return len(ic.getChunksWithLock())
+}
+
+// VerifChunkIndex returns the index of the chunk that holds (or would hold) the key.
+func (ic *ImmunityCache) VerifChunkIndex(key []byte) uint32 {
+	return ic.getChunkIndexByKey(string(key))
+}
+
+// VerifChunkState returns a copy of the state of chunk i.
+func (ic *ImmunityCache) VerifChunkState(i int) VerifChunkState {
+	chunk := ic.getChunkByIndexWithLock(uint32(i))
+	chunk.mutex.RLock()
+	defer chunk.mutex.RUnlock()
+
+	st := VerifChunkState{
+		NumBytes:       chunk.numBytes,
+		NumMapItems:    len(chunk.items),
+		MaxNumItems:    chunk.config.maxNumItems,
+		MaxNumBytes:    chunk.config.maxNumBytes,
+		NumToEvictStep: chunk.config.numItemsToPreemptivelyEvict,
+	}
+	for element := chunk.itemsAsList.Front(); element != nil; element = element.Next() {
+		item := element.Value.(*cacheItem)
+		st.Keys = append(st.Keys, item.key)
+		st.Sizes = append(st.Sizes, item.size)
+		st.Flagged = append(st.Flagged, item.isImmuneToEviction())
+	}
+	for key := range chunk.immuneKeys {
+		st.ImmuneKeys = append(st.ImmuneKeys, key)
+	}
+	return st
+}
